@@ -205,7 +205,9 @@ func extractPrefix(err, cause error) (string, MessageType) {
 		if len(prefix) == 0 {
 			return "", Prefix
 		}
-		if strings.HasSuffix(prefix, ": ") {
+		// A prefix made of the separator alone cannot be sent as a
+		// prefix: an empty prefix means "no message of its own".
+		if strings.HasSuffix(prefix, ": ") && len(prefix) > 2 {
 			return prefix[:len(prefix)-2], Prefix
 		}
 	}
